@@ -233,3 +233,21 @@ def c13(run):
     run.cov['rule'] = ('HKDF-AES-128/256: info lengths covering every residue mod 16 (thorough: 0..200) x random chunkings of one reader x the 255-block limit in one read and across reads x bad secret sizes, '
                        "compared with the Gallina reference and (in Go) with RFC 5869 expand over the library's own AES-MAC; HKDF-SHA-256/512: random secret/salt/info (incl. empty), lengths 0..255*HashLen+1")
     return D.finish(run, 'proof')
+
+
+# ------------------------------------------------------------------ C12
+
+@check('C12')
+def c12(run):
+    run.assumptions += ['Go cipher.NewGCM / cipher.NewCTR / crypto/aes and x/crypto chacha20poly1305 are modelled by the Gallina references and compared byte for byte (not verified)',
+                        'that a change of nonce, additional data or key makes decryption fail is the AEAD integrity assumption; what is proved is exactness: decryption succeeds only on the output of encryption for the same nonce/aad/key']
+    run.trusted += ['Gallina AES, GCM (SP 800-38D), ChaCha20-Poly1305 (RFC 8439) references in coq/Lib, RFC 3610 specification in coq/Spec/RFC3610.v (validated on published vectors in Spec/Vectors.v)']
+    D.prove(run, extra_targets=['Model/CryptoCorr.vo', 'Spec/Vectors.vo'])
+    rc, o = D.harness_build()
+    if rc != 0:
+        run.broke('harness build', o[-1500:])
+    else:
+        D.correspond(run, 'aead', [], reference_theorem='C12_ccm_encrypt_is_reference (CCM) / Gallina GCM and ChaCha20-Poly1305 references')
+    run.cov['rule'] = ('12 AEAD algorithms x random keys/nonces x plaintext lengths around block boundaries x AAD lengths 0..100 (CCM: 65279/65280 crossing the length encodings; thorough: 65278..70000, plaintext 65535/70000), '
+                       'ciphertexts compared with the Gallina references; per message: bit flips of ciphertext/tag/nonce/aad/key, truncation, extension; nonce lengths 0..17; key sizes 0..40; plaintexts beyond the CCM limit')
+    return D.finish(run, 'proof')
